@@ -131,6 +131,7 @@ def derive_reads(tid, chrom, strand, exons, delta, d):
         menu.append(("del3", i))
         menu.append(("ins3", i))
     menu.append(("polya",))
+    menu.append(("polya-aligned",))       # 25 bases of the tail aligned as a spurious terminal block behind a 375-bp gap, the rest clipped
     menu.append(("flip",))
     out = []
     seen = set()
@@ -201,13 +202,26 @@ def derive_reads(tid, chrom, strand, exons, delta, d):
                     extras["clip_right"] = "A" * 30
                 else:
                     extras["clip_left"] = "T" * 30
+            tail_block = None
+            if ("polya-aligned",) in devs:
+                if not at_3prime or ("polya",) in devs or ("flip",) in devs:
+                    continue
+                if strand == "+":
+                    tail_block = ("right", [blocks[-1][1] + 376, blocks[-1][1] + 400], "A" * 25)
+                    extras["clip_right"] = "A" * 10
+                else:
+                    if blocks[0][0] - 400 < 1:
+                        continue
+                    tail_block = ("left", [blocks[0][0] - 400, blocks[0][0] - 376], "T" * 25)
+                    extras["clip_left"] = "T" * 10
+                extras["tail_block"] = tail_block
             rev = (strand == "-")
             if ("flip",) in devs:
                 rev = not rev
                 if ("polya",) in devs:
                     continue           # a tail on the wrong side is not a documented tolerance
             extras["reverse"] = rev
-            key = (tuple(map(tuple, blocks)), tuple(map(tuple, edits)), extras.get("clip_right"), extras.get("clip_left"), rev)
+            key = (tuple(map(tuple, blocks)), tuple(map(tuple, edits)), extras.get("clip_right"), extras.get("clip_left"), rev, str(tail_block))
             if key in seen:
                 continue
             seen.add(key)
@@ -322,7 +336,19 @@ def case(args):
         for r in derive_reads(tid, chrom, strand, ex, delta, d):
             nm = "p%d" % k
             k += 1
-            reads.append(dict({"name": nm, "chr": chrom, "blocks": [list(b) for b in r["blocks"]]}, **r["extras"]))
+            rd = dict({"name": nm, "chr": chrom, "blocks": [list(b) for b in r["blocks"]]}, **{kk: v for kk, v in r["extras"].items() if kk != "tail_block"})
+            tb = r["extras"].get("tail_block")
+            if tb:
+                # the aligned part of the tail is a block of its own (IsoQuant trims it); edits refer to block indices: shift them
+                if tb[0] == "right":
+                    rd["blocks"].append(list(tb[1]))
+                    rd["block_seq"] = {len(rd["blocks"]) - 1: tb[2]}
+                else:
+                    rd["blocks"].insert(0, list(tb[1]))
+                    rd["block_seq"] = {0: tb[2]}
+                    if rd.get("edits"):
+                        rd["edits"] = [[e[0] + 1] + list(e[1:]) for e in rd["edits"]]
+            reads.append(rd)
             info[nm] = r
         for r in negative_reads(tid, chrom, strand, ex, delta):
             if not far_from_all(r["blocks"], iso, chrom, delta):
